@@ -365,6 +365,7 @@ func TestVerif_C11(t *testing.T) {
 		ac := afake.NewSimpleClientset()
 		cl := &client{kc: kc, ac: ac, ns: "lease", settings: st, log: logger}
 		// the second round is the update path: usually with a changed manifest (services and exposes differ)
+		original := group
 		updated := group
 		if rapid.IntRange(0, 3).Draw(t, "updateChangesManifest") > 0 {
 			updated = c11GenGroup(t)
@@ -376,7 +377,7 @@ func TestVerif_C11(t *testing.T) {
 		faultRound := -1
 		var faultVerb, faultRes string
 		if rapid.IntRange(0, 2).Draw(t, "faultDuringUpdate") == 0 {
-			rounds, faultRound = 3, 1
+			rounds, faultRound = 3, rapid.SampledFrom([]int{1, 1, 0}).Draw(t, "faultRound")
 			faultVerb = rapid.SampledFrom([]string{"update", "create", "delete-collection"}).Draw(t, "faultVerb")
 			faultRes = rapid.SampledFrom([]string{"deployments", "deployments", "services", "ingresses", "networkpolicies"}).Draw(t, "faultResource")
 		}
@@ -400,7 +401,52 @@ func TestVerif_C11(t *testing.T) {
 			}
 			if err := cl.Deploy(context.Background(), lid, &group); err != nil {
 				if fired {
-					vsLabel("update-failed-by-injected-fault:" + faultVerb + "-" + faultRes)
+					vsLabel("deploy-failed-by-injected-fault:" + faultVerb + "-" + faultRes)
+					// whatever a failed Deploy leaves behind: workloads that exist are isolated (the
+					// restrictions are in place, and nothing but the ports exposed globally by the
+					// previous or the new manifest is admitted from outside)
+					if st.NetworkPoliciesEnabled {
+						left, _ := kc.AppsV1().Deployments(metav1.NamespaceAll).List(context.Background(), metav1.ListOptions{})
+						if len(left.Items) > 0 {
+							merged := manifest.Group{Name: group.Name}
+							merged.Services = append(merged.Services, group.Services...)
+							if round >= 1 {
+								merged.Services = append(merged.Services, original.Services...)
+							}
+							// one entry per workload that exists, carrying the exposes of every version of that service
+							var present manifest.Group
+							for _, d := range left.Items {
+								svc := manifest.Service{Name: d.Name}
+								for _, ms := range merged.Services {
+									if ms.Name == d.Name {
+										svc.Expose = append(svc.Expose, ms.Expose...)
+									}
+								}
+								present.Services = append(present.Services, svc)
+							}
+							// ports exposed globally by ANY service of either version count as exposed
+							for i := range present.Services {
+								for _, ms := range merged.Services {
+									if ms.Name != present.Services[i].Name {
+										for _, e := range ms.Expose {
+											if e.Global {
+												present.Services[i].Expose = append(present.Services[i].Expose, e)
+											}
+										}
+									}
+								}
+							}
+							np, _ := kc.NetworkingV1().NetworkPolicies(metav1.NamespaceAll).List(context.Background(), metav1.ListOptions{})
+							var stored []*netv1.NetworkPolicy
+							for i := range np.Items {
+								stored = append(stored, &np.Items[i])
+							}
+							if len(stored) == 0 {
+								t.Fatalf("C11 VIOLATION key=c11-workload-without-policies: round %d: Deploy failed (%v) and left %d workload(s) in namespace %s without any network policy", round, err, len(left.Items), ns)
+							}
+							c11CheckNetPol(t, stored, lid, present)
+						}
+					}
 					continue // the retry is the next round
 				}
 				// a manifest the builders cannot express is a refusal, not a violation of this property
